@@ -818,7 +818,7 @@ func (c14ng) Gen(rng *rand.Rand, tier string) []Case {
 		}
 	}
 	// (c) files of about 4 KiB cut at every offset, larger ones at random offsets
-	nb := 2
+	nb := 1
 	if tier == "thorough" {
 		nb = 30
 	}
